@@ -30,6 +30,10 @@ class Module:
         with warnings.catch_warnings():
             warnings.simplefilter('ignore')
             self.tree = ast.parse(source, filename=relpath)
+        self.norm_counts = {}
+        if os.environ.get('SCMO_NO_NORMALIZE') != '1':
+            from .normalize import normalize
+            self.tree, self.norm_counts = normalize(self.tree)
         self.lines = source.splitlines()
         self._defs = None
         # parent links and qualnames
